@@ -116,4 +116,11 @@ CHECKS.update({
         "technique": "symbolic execution (CrossHair + z3) of two consecutive real sessions on content-addressed materialised text",
     },
 })
+CHECKS.update({
+    "C09": {
+        "text": "Multi-session histories on materialised text: for 8 templates whose pending changes of several categories touch the same AST nodes (membership list with trim+fix+update, sub-snapshots with trim+create+fix+update, list/dict/dataclass with hand-written parts, several sites) and every one of the 24 orders, four single-category sessions are compared with one combined session; the solver confirms on every path identical syntax trees of the snapshot arguments and equal values.",
+        "note": "Test bodies record comparison results instead of aborting at the first failing assert (a trim-only run on an aborting test observes fewer comparisons - documented behaviour of failing tests, outside the stated confluence). int leaves; template list enumerated.",
+        "technique": "symbolic execution (CrossHair + z3) of multi-session histories on content-addressed materialised text; differential oracle (AST + value)",
+    },
+})
 NOT_APPLICABLE = {}
